@@ -139,7 +139,17 @@ def run(fb, rep, tier):
         if CONTAINERS.match(K):
             rep.not_decided.append('R17.1: %s is a generic container; its copy semantics are an ADT matter (C19)' % K.replace('soplex::', ''))
             continue
-        w = touched_fields(fb, f)
+        # copied = written by the operator itself (or a base-class operator=); a write somewhere in a helper it calls only
+        # counts for pointer members, which are re-bound rather than copied (the helper may just reset the member)
+        direct = touched_fields(fb, f, depth=0)
+        for n in f.nodes:
+            if n.k == 'CXXMemberCallExpr' and n.short == 'operator=':
+                g = fb.funcs.get(n.u)
+                if g is not None:
+                    direct |= touched_fields(fb, g, depth=0)
+        trans = touched_fields(fb, f)
+        ptrs = set(x['n'] for x in fb.classes[K]['fields'] if x['tk'] == 'ptr')
+        w = direct | (trans & ptrs)
         for fld in fb.classes[K]['fields']:
             if (K, fld['n']) not in reads:
                 continue
